@@ -55,6 +55,10 @@ def step (d : DState) (line : String) : DState × String :=
          if s'.hung then (d.put (Store.syncShared s'), "HANG") else
          let sv := Server.applySignals { d.sv with store := Store.syncShared { s' with held := [] } }
          (d.putSv sv, Driver.fmtOut (method == "ZUnion" || method == "ZInter") out))
+    | "scanall" :: id :: rest =>
+      let template := rest.map fun t => if t == "CUR" then none else Wire.parseArg t
+      let (sv, out) := Driver.scanAll tables d.sv id now template 5001 [48] 0 []
+      (d.putSv { sv with store := Store.syncShared sv.store }, out)
     | "resp" :: id :: rest =>
       (match rest.mapM Wire.parseArg with
        | none => (d, "bad-op")
